@@ -306,6 +306,43 @@ def handleResolve (cliPath tomlEnc contractsExists implExit implReport : String)
       { kind := "RESOLVE", agree := if ok then "A" else "D", oracle := "na",
         detail := if ok then "" else s!"model: dir {o.path} patterns {want}; impl sections {seen}; files from the model's dir: {filesOk}" }
 
+def contextDependent : List String :=
+  ["constant_variable_optimization", "sstore_optimization", "immutable_variables_optimization"]
+
+def handleCompose (st : St) (idw partsEnc det implW implPs : String) : Verdict :=
+  let partIds : List (Nat × String) := (partsEnc.splitOn ",").filterMap fun kv =>
+    match kv.splitOn "=" with
+    | i :: rest => (i.toNat?).map (·, "=".intercalate rest)
+    | _ => none
+  match lookup st.files idw, detectorByName det with
+  | some fw, some d =>
+    let wholeParts := sourceUnitParts fw.tree
+    let partFiles := partIds.filterMap fun (i, id) => (lookup st.files id).map (i, ·)
+    if partFiles.length != partIds.length then { kind := "COMPOSE", group := det, agree := "E", detail := "part file not registered" } else
+    -- assumption about the parser: blanking the other items yields exactly `keep i`
+    let shapeOk := partFiles.all fun (i, pf) => sourceUnitParts pf.tree == keepItems i wholeParts
+    if !shapeOk then { kind := "COMPOSE", group := det, agree := "E", detail := "blanked file does not parse to keep i of the whole tree" } else
+    let modelW := canonLocs (d fw.tree)
+    let modelU := canonLocs (partFiles.flatMap fun (_, pf) => d pf.tree)
+    let implParts := (implPs.splitOn "|").map parseLocs
+    let inScope := det != "safe_math_pre_080_optimization" && det != "safe_math_post_080_optimization"
+    let indep := !contextDependent.contains det || (itemsIndependent wholeParts && stateNamesUnique fw.tree)
+    let oracle : String × String :=
+      match parseLocs implW, implParts.all Option.isSome with
+      | some w, true =>
+        if !inScope then ("na", "SafeMath detectors are file-wide by design")
+        else if !indep then ("na", "items mention each other's state variables")
+        else if det == "increment_decrement_optimization" && !incDecLocsDistinct fw.tree then ("na", "hypothesis IncDecLocsDistinct fails")
+        else
+          let u := canonLocs ((implParts.filterMap id).flatten.map fun (s, e) => ⟨0, s, e⟩)
+          if canonLocs (w.map fun (s, e) => ⟨0, s, e⟩) == u then ("ok", "") else ("VIOL", s!"whole={fmtLocs w} union of items={fmtLocs u}")
+      | _, _ => ("VIOL", "panic")
+    { kind := "COMPOSE", group := det,
+      agree := if !inScope || !indep then "na" else if modelW == modelU then "A" else "D",
+      oracle := oracle.1,
+      detail := if oracle.1 == "VIOL" || (inScope && indep && modelW != modelU) then s!"{oracle.2}|model whole={fmtLocs modelW} model union={fmtLocs modelU}" else oracle.2 }
+  | _, _ => { kind := "COMPOSE", group := det, agree := "E", detail := "unknown file or detector" }
+
 def step (st : St) (line : String) : St × Option Verdict :=
   match splitTabs line with
   | ["ROOT", rid, ty, dbg] =>
@@ -336,6 +373,7 @@ def step (st : St) (line : String) : St × Option Verdict :=
     let st := { st with detImpl := truncate 2000 (((fid, det), impl) :: st.detImpl) }
     (st, some (handleDet st fid det impl))
   | ["LINES", fid, cat, variant, _fileNo, impl] => (st, some (handleLines st fid cat variant impl))
+  | ["COMPOSE", idw, partsEnc, det, implW, implPs] => (st, some (handleCompose st idw partsEnc det implW implPs))
   | ["RESOLVE", cliPath, tomlEnc, ce, implExit, implReport] => (st, some (handleResolve cliPath tomlEnc ce implExit implReport))
   | ["RENDER", cat, enc, implHex, same] => (st, some (handleRender cat enc implHex same))
   | ["FULLREPORT", v, o, q, implHex] => (st, some (handleFull v o q implHex))
